@@ -43,7 +43,7 @@ func init() {
 		Explanation: "L1: every record passed to Create/CasByVersion has ExpiresAt = now + lease. L2: between the Create success edge and the success exit a renewal is armed with timeout.Call(fn, lease/k), k>=2, fn reaching the renewal routine with that Create's version, and stored in the Locker's timer slot. " +
 			"L3: the renewal's CAS success edge re-arms with the new version; exits after a definitive loss (ErrNotExist/ErrConflict) arm nothing and write nothing. L4: every exit of the renewal that arms nothing is dominated by a positive class test for ErrNotExist or ErrConflict (a transient error must not end the chain). " +
 			"L5: the renewal is a CAS on the Locker's key with the tenure's version. L6: the renewal does not use the acquisition's context. L7: Unlock cancels the armed timer before deleting the record. " +
-			"T1-T7: the timer keeps heap indices current and Cancel is guarded (C12 rules). E1/E2: the in-memory store treats an expired record as absent and bounds a parked waiter by the expiry (dead-holder clause).",
+			"T1-T7: the timer keeps heap indices current and Cancel is guarded (C12 rules). U1-U6: a queued renewal is not slept through (C13 rules). E1/E2: the in-memory store treats an expired record as absent and bounds a parked waiter by the expiry (dead-holder clause).",
 		NotDecided: "every timing statement ('within about one lease period'), clock behaviour.",
 	})
 }
@@ -91,7 +91,10 @@ func resolveLockRoles(c *Ctx) *lockRoles {
 	}
 	c.Role("lock.locker", r.locker.Obj().Name(), r.locker.Obj().Pos())
 	r.dlpF = c.oneField("locker.provider", r.locker, func(f *types.Var) bool { return namedOf(f.Type()) == r.provider })
-	r.keyF = c.oneField("locker.key", r.locker, func(f *types.Var) bool { b, ok := f.Type().Underlying().(*types.Basic); return ok && b.Kind() == types.String })
+	r.keyF = c.oneField("locker.key", r.locker, func(f *types.Var) bool {
+		b, ok := f.Type().Underlying().(*types.Basic)
+		return ok && b.Kind() == types.String
+	})
 	r.tokenF = c.oneField("locker.token", r.locker, func(f *types.Var) bool { _, ok := f.Type().Underlying().(*types.Chan); return ok })
 	r.timerF = c.oneField("locker.timer", r.locker, func(f *types.Var) bool { return ir.IsNamed(f.Type(), "sync/atomic", "Value") })
 	lm := func(name string) *ssa.Function { return c.RequireFn(c.P.MethodOf(r.locker, name), "locker."+name) }
@@ -726,9 +729,22 @@ func runC05(c *Ctx) {
 				}
 			}
 			c.Decide("C05.L1", fn, call.Call.Method.Name()+" writes the record with ExpiresAt = now + lease", in, ok, "the lock record is written without (or with another) expiration than now + lease: a dead holder's record never lapses, or a live holder's record lapses early")
+			// the lease is computed at the time of the write: every way from one attempt to the next re-reads the clock
+			if ok && cell != nil {
+				for _, st := range fieldStores(cell, r.recExpires) {
+					if ptr, isCall := ir.Resolve(st.Val).(*ssa.Call); isCall && len(ptr.Call.Args) == 1 {
+						if add, isAdd := ir.Resolve(ptr.Call.Args[0]).(*ssa.Call); isAdd {
+							if now, isNow := ir.Resolve(add.Call.Args[0]).(*ssa.Call); isNow {
+								w, _ := (ir.Query{Fn: fn, From: in, Block: func(x ssa.Instruction) bool { return x == ssa.Instruction(now) }, Target: func(x ssa.Instruction) bool { return x == in }}).Find()
+								c.Decide("C05.L1", fn, "lease counted from the moment of the write", in, w == nil && now.Parent() == call.Parent(), "the expiration is computed once and reused for later attempts: a caller that waited behind another holder creates a record that is already (nearly) expired, its first renewal finds nothing and the record lapses under the holder")
+							}
+						}
+					}
+				}
+			}
 		})
 	}
-	c.R.Floor("C05.L1", 3)
+	c.R.Floor("C05.L1", 6)
 
 	// L2 arm on acquire
 	for _, fn := range r.lockerFns {
@@ -906,6 +922,7 @@ func runC05(c *Ctx) {
 
 	// T: timer rules; E: in-memory expiry
 	timerRules(c, "C05.T")
+	timerLiveRules(c, "C05.U")
 	im := resolveInmemRoles(c)
 	c.inmemExpiry(im, "C05.E1")
 	c.inmemBoundedPark(im, "C05.E2")
